@@ -24,14 +24,15 @@ THEOREMS = ["Cog.C04." + t for t in """
 C04_resolve_terminates C04_resolveToType_terminates C04_resolve_fuel_irrelevant
 resolve_diverges_iff_alias_cycle resolveToType_diverges_iff_alias_cycle aliasAcyclic_iff
 retype_object_creates_alias_cycle add_object_creates_alias_cycle
-C04_pass_total_partial C04_pass_total_unconditional C04_pass_total_counterexample C04_pass_witnesses
+C04_pass_total_partial C04_pass_total_unconditional C04_pass_total_wf C04_pass_total_counterexample C04_pass_witnesses
+C04_pass_prefix_witnesses C04_pass_fixed C04_pass_prefix_partial
 C04_chain_total_partial C04_chain_panic_blames C04_chain_total_counterexample
-C04_xform_total_partial C04_xform_total_counterexample
+C04_xform_total_partial C04_xform_total_counterexample C04_constant_to_enum_total C04_constant_to_enum_prefix_panicked
 C04_config_total_partial C04_config_total_counterexample C04_config_malformed_as C04_hint_object_prefix_panicked
 C04_fromAST_total_partial C04_fromAST_total_counterexample C04_fromAST_dangling_panicked_before_fix C04_fromAST_diverges_on_alias_cycle
-C04_option_actions_total_partial C04_option_actions_total_counterexample
+C04_option_actions_total_partial C04_option_actions_total_counterexample C04_disjunction_as_options_index_fixed
 C04_parse_total_openapi_partial C04_parse_total_openapi_prefix_partial C04_parse_total_openapi_counterexample
-C04_parse_openapi_prefix_witnesses C04_parse_openapi_fixed
+C04_parse_openapi_prefix_witnesses C04_parse_openapi_fixed C04_parse_openapi_no_empty_enum_or_union C04_parse_openapi_empty_prefix_witnesses
 C04_parse_total_jsonschema_partial C04_parse_total_jsonschema_counterexample C04_parse_jsonschema_prefix_witness
 C04_parse_wf_openapi C04_parse_wf_jsonschema C04_partial_ops_accounted
 """.split()]
@@ -41,12 +42,12 @@ FACTS = os.path.join(WORK, "c20", "facts.json")
 
 # the Lean counterexample witnesses and the corpus case that replays each on the real code
 WITNESS_REPLAYS = {
-    "C04_pass_witnesses/wMixedEnum": ("corpus/jsonschema-mixed-enum", r"enumMemberNameFromValue|sanitizeEnumMember"),
-    "C04_pass_witnesses/wDiscriminatorOnScalars": ("corpus/openapi-discriminator-on-scalars", r"buildDiscriminatorMapping"),
-    "C04_config_total_counterexample/retypeThenConstantToEnum": ("corpus-config/constant-to-enum-non-string", r"ConstantToEnum"),
     "retype_object_creates_alias_cycle": ("corpus-config/retype-self-reference", r"recursion:.*Resolve"),
     "add_object_creates_alias_cycle": ("corpus-config/add-object-alias-cycle", r"recursion:.*Resolve"),
     "C04_config_malformed_as": ("corpus-config/retype-object-nil-struct", r"AsStruct|Struct"),
+    "C04_config_total_counterexample": ("corpus-config/retype-object-nil-struct", r"AsStruct|Struct"),
+    "C04_xform_total_counterexample/retypeBadArray": ("corpus-config/retype-object-nil-array", r"AsArray|TypeName"),
+    "C04_pass_total_counterexample/wAliasCycle": ("corpus/openapi-alias-cycle", r"recursion:.*Resolve"),
     "C04_option_actions_total_counterexample": ("corpus-config/unfold-boolean-on-added-option", r"UnfoldBoolean"),
 }
 
@@ -75,6 +76,14 @@ FIXED_PINNED = {
     "corpus-config/inputs-null-element": "15208a9", "corpus-config/languages-null-element": "15208a9",
     "corpus-config/passes-file-null": "4823a7e", "corpus-config/veneers-file-null": "4823a7e",
     "corpus-config/retype-then-hint": "d683cb9",
+    "corpus/jsonschema-mixed-enum": "aceba4d", "corpus-config/enum-empty-member-name": "aceba4d",
+    "corpus/jsonschema-null-null": "30da046", "corpus-config/union-null-null": "30da046",
+    "corpus/openapi-discriminator-on-scalars": "375123d", "corpus/jsonschema-discriminator-const-array": "375123d",
+    "corpus-config/constant-to-enum-non-string": "637545e",
+    "corpus-config/struct-fields-as-arguments-on-scalar": "423e7f3",
+    "corpus/openapi-enum-array-member": "182b25c",
+    "corpus/openapi-empty-enum": "fd9167a", "corpus/openapi-empty-oneof": "fd9167a",
+    "corpus-config/union-empty": "146d1ec",
 }
 
 
